@@ -68,20 +68,4 @@ example :
       (witnessReplace ++ [.xResume, .cRecv, .xFill 40 88, .cRecv])).order.status = "E" := by
   decide +kernel
 
-/-- C17-multiline-root: "a\nb" does not end in the chaining suffix, yet the root is not recovered
-from the chained id (so the next id is "a\nb--1--2") -/
-theorem root_extraction_fails_multiline : ¬ root_extraction_full := by
-  intro h
-  have hnc : ¬ ChainForm [97, 10, 98] := by
-    intro ⟨a, d, _, _, _, hs⟩
-    have : (45 : Nat) ∈ [97, 10, 98] := by rw [hs]; simp
-    revert this; decide
-  have := (h [97, 10, 98] (by decide) hnc).2 1
-  revert this; decide +kernel
-
-/-- a root whose FIRST line ends in the chaining suffix is cut to the part before it: "a--1\nb" ↦ "a",
-the same as for "a--1\nc" – two different roots produce the same ClOrdIDs -/
-example : clordRoot [97, 45, 45, 49, 10, 98] = [97] ∧ clordRoot [97, 45, 45, 49, 10, 99] = [97] := by
-  decide +kernel
-
 end AsyncFix.Findings.C17
